@@ -8,9 +8,21 @@ VSF = dict(unit="vsfld_u.c", file="hdf/src/vsfld.c",
 ob("VSfdefine", ["C07", "C20"], entry="h_VSfdefine", enforce="VSfdefine", loops=True, nloops=1, loopcls="A",
    overflow=True, defines=["H4V_ABS_STR", "NUSYM_CAP=11", "NMLEN=1"], cex_unwind=24, timeout=900,
    **dict(VSF, trusted=VSF["trusted"] + ["strcmp abstracted to an arbitrary result, strdup to NULL-or-fresh (proof mode only)"]))
-NM = dict(VSF, file="hdf/src/vg.c", mode="bounded")
-for f in ("VSsetname", "VSsetclass"):
-    ob(f, ["C07", "C20"], entry="h_" + f, enforce=f, defines=["NLEN_MAX=72"], unwind=75, cex_unwind=75,
-       bound="new name length <= 72 (limit VSNAMELENMAX = 64; libc string loops unwound)", **NM)
-    ob(f + "_2x", ["C07", "C20"], entry="h_" + f, enforce=f, unwind=131, cex_unwind=131, tier="thorough",
-       bound="new name length <= 128 = 2 x VSNAMELENMAX (libc string loops unwound)", **NM)
+NM = dict(VSF, file="hdf/src/vg.c", mode="bounded", unwind=131, cex_unwind=131,
+          bound="new name length <= 128 = 2 x VSNAMELENMAX (libc string loops unwound)")
+ob("VSsetname", ["C07", "C20"], entry="h_VSsetname", enforce="VSsetname", **NM)          # ~100 s
+ob("VSsetclass", ["C07", "C20"], entry="h_VSsetclass", enforce="VSsetclass", tier="thorough", **NM)
+ob("VSsetfields_new", ["C07", "C20"], entry="h_VSsetfields_new", enforce="VSsetfields", mode="bounded",
+   bound="<= 4 requested fields (or > VSFIELDMAX), <= 3 user symbols, names <= 2 characters", overflow=True,
+   defines=["H4V_SMALL_STR", "NMLEN=2"], unwind=12, cex_unwind=14, timeout=900,
+   **dict(VSF, trusted=VSF["trusted"] + ["strcmp/strdup replaced by unrolled models that are exact for names <= 2 characters"]))
+
+# ----------------------------------------------------------------------------- vrw.c
+VRW = dict(unit="vrw_u.c", file="hdf/src/vrw.c",
+           trusted=["Hseek: logs (aid, offset, origin), answers SUCCEED/FAIL", "HAatom_group/HAatom_object: harness-built instance or NULL"])
+ob("VSseek", ["C07", "C20"], entry="h_VSseek", enforce="VSseek", overflow=True, **VRW)
+
+# ----------------------------------------------------------------------------- vio.c
+ob("vpack_roundtrip", ["C07", "C02"], unit="vio_u.c", file="hdf/src/vio.c", entry="h_vpack_roundtrip", enforce=None,
+   mode="bounded", bound="<= 3 fields, names/vsname/vsclass <= 3 characters, <= 2 attributes, version in {3,4}",
+   unwind=14, cex_unwind=14, trusted=["map_from_old_types (vconv.c): identity, only reached for version <= 2 (outside the domain)"])
